@@ -41,7 +41,12 @@ pub fn explore(
         let r = std::panic::catch_unwind(std::panic::AssertUnwindSafe(|| body(&info)));
         if let Err(e) = r {
             let msg = e.downcast_ref::<String>().cloned().or_else(|| e.downcast_ref::<&str>().map(|s| s.to_string())).unwrap_or_else(|| "panic".into());
-            panics.push((prefix.clone(), msg));
+            // a panic on a path whose condition is unsatisfiable is not a behaviour of the code
+            let h = eng::hyps();
+            let infeasible = matches!(eng::valid(&format!("path {:?} that panics ('{}') is infeasible", flips, msg.chars().take(60).collect::<String>()), &h, &bls12_381::symex::F::False), eng::Tri::Yes);
+            if !infeasible {
+                panics.push((prefix.clone(), msg));
+            }
         }
         eng::path_done();
         let ds = sx::snapshot_decisions();
